@@ -3,8 +3,11 @@
    A case = one enum type of one definition file run through the real CLI under given options:
    the definition, the options, the outcome (0 generated and compiled, 1 generator error,
    2 compile error, >= 3 observation failure) and what the compiled code was seen to do.
-   judge_cXX c = verdict (observation satisfies the property's specification)
-                         (observation equals the prediction of GEnumModel.gen / sem_xxx).      *)
+   judge_cXX_sk k c = verdict (observation satisfies the property's specification)
+                              (observation equals the prediction of GEnumModel.gen and of the interpreters
+                               sem_xxx_sk / decode_xxx_sk at the skeleton record k).
+   k is the record regenerated from the template of the tree under test (GEnumSkelGen.gen_skels) when the
+   translator tie holds, the hand-written cur_skels otherwise.                                          *)
 From Coq Require Import String Ascii ZArith List Bool.
 From GT Require Import Base.Verdict.
 From GT Require Import Base.GEnumStr.
@@ -32,13 +35,6 @@ Definition res_eqb (a b : res) : bool :=
   | _, _ => false
   end.
 
-Fixpoint list_eqb {A} (eqb : A -> A -> bool) (a b : list A) : bool :=
-  match a, b with
-  | [], [] => true
-  | x :: a', y :: b' => eqb x y && list_eqb eqb a' b'
-  | _, _ => false
-  end.
-
 Definition outcome_code (o : outcome tables) : nat :=
   match o with Built _ => 0 | GenErr => 1 | BuildErr => 2 | Unsupported => 9 end.
 
@@ -53,6 +49,12 @@ Definition in_domain_names (d : defn) : bool :=
 Definition ci_collision (d : defn) (o : opts) : bool :=
   o_ci o && negb (str_nodupb (map (fun c => to_lower (c_name c)) (d_consts d))).
 Definition in_domain (d : defn) (o : opts) : bool := in_domain_names d && negb (ci_collision d o).
+(* a constant named like an identifier the template binds: the generator must refuse (near-miss stream) *)
+Definition reserved_collision (d : defn) (o : opts) : bool :=
+  existsb (fun c => reserved_name o (c_name c)) (d_consts d).
+(* trait cells bound to / referring to such identifiers are outside the modelled space *)
+Definition cells_in_domain (d : defn) : bool :=
+  forallb (fun c => forallb (fun cl => negb (reserved_cell_var (cl_var cl))) (c_cells c)) (d_consts d).
 
 (* documented acceptance rules of the generator, over the definition:
    trait names on the line of the lowest value; a line with trait cells has (or shares its value
@@ -113,7 +115,7 @@ Definition parse_spec_ok (d : defn) (o : opts) (s : string) (r : res) : bool :=
 Definition c04_spec_ok (c : c04_case) : bool :=
   let d := k_def c in
   let vs := values_spec (d_consts d) in
-  if ci_collision d (k_opts c) then Nat.eqb (k_outcome c) 1 else
+  if ci_collision d (k_opts c) || reserved_collision d (k_opts c) then Nat.eqb (k_outcome c) 1 else
   Nat.eqb (k_outcome c) 0
   && list_eqb Z.eqb (k_values c) vs
   && list_eqb String.eqb (k_strvalues c) (map (string_spec d) vs)
@@ -124,25 +126,27 @@ Definition c04_spec_ok (c : c04_case) : bool :=
                        res_eqb r1 r2 && res_eqb r1 r3 && parse_spec_ok d (k_opts c) s r1)
              (k_parses c).
 
-Definition c04_model_eq (c : c04_case) : bool :=
+Definition c04_model_eq (k : skels) (c : c04_case) : bool :=
   match gen (k_def c) (k_opts c) with
   | Built t =>
       Nat.eqb (k_outcome c) 0
-      && list_eqb Z.eqb (k_values c) (sem_values t)
-      && list_eqb String.eqb (k_strvalues c) (sem_stringvalues t)
+      && list_eqb Z.eqb (k_values c) (sem_values_sk k t)
+      && list_eqb String.eqb (k_strvalues c) (sem_stringvalues_sk k t)
       && forallb (fun p => let '(e, (valid, str)) := p in
-                           Bool.eqb valid (sem_isvalid t e) && String.eqb str (sem_string t e))
+                           Bool.eqb valid (sem_isvalid_sk k t e) && String.eqb str (sem_string_sk k t e))
                  (k_probes c)
       && forallb (fun p => let '(s, (r1, (r2, r3))) := p in
-                           let m := res_of (sem_parse_string t s) in
-                           res_eqb r1 m && res_eqb r2 m && res_eqb r3 m)
+                           let m := res_of (sem_parse_sk (sk_parse k) t (DStr s)) in
+                           res_eqb r1 m && (negb (sk_parsestring k) || res_eqb r2 m)
+                           && (negb (sk_parsegeneric k) || res_eqb r3 m))
                  (k_parses c)
   | o => Nat.eqb (k_outcome c) (outcome_code o)
   end.
 
-Definition judge_c04 (c : c04_case) : nat :=
-  if in_domain_names (k_def c) && traits_in_domain (k_def c)
-  then verdict (c04_spec_ok c) (c04_model_eq c) else 0.
+Definition judge_c04_sk (k : skels) (c : c04_case) : nat :=
+  if in_domain_names (k_def c) && traits_in_domain (k_def c) && cells_in_domain (k_def c)
+  then verdict (c04_spec_ok c) (c04_model_eq k c) else 3.
+Definition judge_c04 : c04_case -> nat := judge_c04_sk cur_skels.
 
 (* non-trivial case: duplicates present, or the binary-search variant of IsValid was emitted *)
 Definition c04_nontrivial (c : c04_case) : bool :=
@@ -161,24 +165,25 @@ Inductive dfrom :=
    generated Unmarshal* method (false e.g. for YAML null: out of the decoders' reach) *)
 Record doc_obs := {
   do_codec : codec; do_from : dfrom; do_called : bool;
-  do_null : bool;                         (* the JSON document is the literal null: it holds nothing, although
-                                             json.Unmarshal "reads" "" and 0 from it *)
+  do_null : bool;                         (* the document holds no scalar: the JSON literal null (json.Unmarshal "reads"
+                                             "" and 0 from it), a YAML sequence or mapping node (its Value is "") *)
   do_str : option string;                 (* JSON string view | text | yaml node value *)
   do_u64 : option Z; do_i64 : option Z;   (* json.Unmarshal into uint64/int64 | strconv.ParseUint/ParseInt *)
+  do_bool : option bool;                  (* json.Unmarshal into bool | yaml Node.Decode into bool *)
   do_native : list (string * option payload);
   do_res : res }.
 
-Definition model_decode (t : tables) (x : doc_obs) : res :=
+Definition model_decode (k : skels) (t : tables) (x : doc_obs) : res :=
   match do_codec x with
-  | CJson => res_of (decode_json t {| jv_null := do_null x; jv_string := do_str x; jv_u64 := do_u64 x; jv_i64 := do_i64 x;
-                                      jv_native := do_native x |})
+  | CJson => res_of (decode_json_sk k t {| jv_null := do_null x; jv_string := do_str x; jv_u64 := do_u64 x; jv_i64 := do_i64 x;
+                                           jv_native := do_native x |})
   | CText => match do_str x with
-             | Some s => res_of (decode_text t {| tv_text := s; tv_native := do_native x |})
+             | Some s => res_of (decode_text_sk k t {| tv_text := s; tv_native := do_native x |})
              | None => RErr
              end
   | CYaml => match do_str x with
-             | Some s => res_of (decode_yaml t {| yv_value := s; yv_u64 := do_u64 x; yv_i64 := do_i64 x;
-                                                  yv_native := do_native x |})
+             | Some s => res_of (decode_yaml_sk k t {| yv_scalar := negb (do_null x); yv_value := s; yv_u64 := do_u64 x;
+                                                       yv_i64 := do_i64 x; yv_native := do_native x |})
              | None => RErr
              end
   end.
@@ -191,7 +196,7 @@ Definition doc_denotes (x : doc_obs) (cl : cell) : bool :=
   | PStr s => match do_str x with Some s' => String.eqb s s' | None => false end
   | PInt z => match do_u64 x with Some u => Z.eqb u z | None => false end
               || match do_i64 x with Some i => Z.eqb i z | None => false end
-  | PBool _ => false
+  | PBool b => match do_bool x with Some b' => Bool.eqb b b' | None => false end
   end
   || existsb (fun p => String.eqb (fst p) (dty (cl_val cl))
                        && match snd p with Some q => payload_eqb q (dval (cl_val cl)) | None => false end)
@@ -238,7 +243,7 @@ Definition c05_spec_ok (c : c05_case) : bool :=
   let d := k5_def c in let o := k5_opts c in
   let vs := values_spec (d_consts d) in
   (* a definition the documented rules reject generates nothing: vacuous *)
-  if negb (spec_accepts d o) then Nat.eqb (k5_outcome c) 1 else
+  if negb (spec_accepts d o) || reserved_collision d o then Nat.eqb (k5_outcome c) 1 else
   Nat.eqb (k5_outcome c) 0
   && list_eqb Z.eqb (k5_values c) vs
   && list_eqb Z.eqb (map fst (k5_enc c)) (if o_json o || o_text o || o_yaml o then vs else [])
@@ -249,28 +254,24 @@ Definition c05_spec_ok (c : c05_case) : bool :=
                        && (negb (o_yaml o) || opt_str_is y n)) (k5_enc c)
   && forallb (c05_doc_spec_ok d o) (k5_docs c).
 
-Definition c05_model_eq (c : c05_case) : bool :=
+Definition c05_model_eq (k : skels) (c : c05_case) : bool :=
   match gen (k5_def c) (k5_opts c) with
   | Built t =>
       let o := k5_opts c in
       Nat.eqb (k5_outcome c) 0
-      && list_eqb Z.eqb (k5_values c) (sem_values t)
+      && list_eqb Z.eqb (k5_values c) (sem_values_sk k t)
       && forallb (fun p => let '(v, (j, (tx, y))) := p in
-                           (negb (o_json o) || opt_str_is j (encode_json t v))
-                           && (negb (o_text o) || opt_str_is tx (encode_text t v))
-                           && (negb (o_yaml o) || opt_str_is y (encode_yaml t v))) (k5_enc c)
-      && forallb (fun x => negb (do_called x) || res_eqb (do_res x) (model_decode t x)) (k5_docs c)
+                           (negb (o_json o) || opt_str_is j (encode_json_sk k t v))
+                           && (negb (o_text o) || opt_str_is tx (encode_text_sk k t v))
+                           && (negb (o_yaml o) || opt_str_is y (encode_yaml_sk k t v))) (k5_enc c)
+      && forallb (fun x => negb (do_called x) || res_eqb (do_res x) (model_decode k t x)) (k5_docs c)
   | o => Nat.eqb (k5_outcome c) (outcome_code o)
   end.
 
-(* -yaml=false drops IsEnum on the pinned template (property C13): such packages do not compile
-   and there is nothing to observe; they are skipped here, not judged *)
-Definition c05_skipped (c : c05_case) : bool :=
-  negb (o_yaml (k5_opts c)) && Nat.eqb (k5_outcome c) 2.
-
-Definition judge_c05 (c : c05_case) : nat :=
-  if in_domain (k5_def c) (k5_opts c) && traits_in_domain (k5_def c) && negb (c05_skipped c)
-  then verdict (c05_spec_ok c) (c05_model_eq c) else 0.
+Definition judge_c05_sk (k : skels) (c : c05_case) : nat :=
+  if in_domain (k5_def c) (k5_opts c) && traits_in_domain (k5_def c) && cells_in_domain (k5_def c)
+  then verdict (c05_spec_ok c) (c05_model_eq k c) else 3.
+Definition judge_c05 : c05_case -> nat := judge_c05_sk cur_skels.
 
 (* non-trivial: some parsable trait family is in play or a document was rejected *)
 Definition c05_nontrivial (c : c05_case) : bool :=
@@ -305,7 +306,7 @@ Definition c12_doc_spec_ok (d : defn) (o : opts) (x : doc_obs) : bool :=
 
 Definition c12_spec_ok (c : c12_case) : bool :=
   let d := k12_def c in let o := k12_opts c in
-  if negb (spec_accepts d o) then Nat.eqb (k12_outcome c) 1      (* rejected with a diagnostic: nothing generated *)
+  if negb (spec_accepts d o) || reserved_collision d o then Nat.eqb (k12_outcome c) 1      (* rejected with a diagnostic: nothing generated *)
   else
     Nat.eqb (k12_outcome c) 0
     && list_eqb Z.eqb (k12_values c) (values_spec (d_consts d))
@@ -320,27 +321,25 @@ Definition c12_spec_ok (c : c12_case) : bool :=
                                  end) (k12_tparse c)))
     && forallb (c12_doc_spec_ok d o) (k12_docs c).
 
-Definition c12_model_eq (c : c12_case) : bool :=
+Definition c12_model_eq (k : skels) (c : c12_case) : bool :=
   match gen (k12_def c) (k12_opts c) with
   | Built t =>
       Nat.eqb (k12_outcome c) 0
-      && list_eqb Z.eqb (k12_values c) (sem_values t)
+      && list_eqb Z.eqb (k12_values c) (sem_values_sk k t)
       && list_eqb String.eqb (isort str_ltb (map fst (k12_acc c))) (map col_name (t_cols t))
       && forallb (fun a => match find (fun col => String.eqb (col_name col) (fst a)) (t_cols t) with
-                           | Some col => forallb (fun p => payload_eqb (snd p) (sem_accessor col (fst p))) (snd a)
+                           | Some col => forallb (fun p => payload_eqb (snd p) (sem_accessor_sk k col (fst p))) (snd a)
                            | None => false
                            end) (k12_acc c)
-      && forallb (fun q => let '(col, (e, (x, r))) := q in res_eqb r (res_of (sem_parse t x))) (k12_tparse c)
-      && forallb (fun x => negb (do_called x) || res_eqb (do_res x) (model_decode t x)) (k12_docs c)
+      && forallb (fun q => let '(col, (e, (x, r))) := q in res_eqb r (res_of (sem_parse_sk (sk_parse k) t x))) (k12_tparse c)
+      && forallb (fun x => negb (do_called x) || res_eqb (do_res x) (model_decode k t x)) (k12_docs c)
   | o => Nat.eqb (k12_outcome c) (outcome_code o)
   end.
 
-Definition c12_skipped (c : c12_case) : bool :=
-  negb (o_yaml (k12_opts c)) && Nat.eqb (k12_outcome c) 2.
-
-Definition judge_c12 (c : c12_case) : nat :=
-  if in_domain (k12_def c) (k12_opts c) && traits_in_domain (k12_def c) && negb (c12_skipped c)
-  then verdict (c12_spec_ok c) (c12_model_eq c) else 0.
+Definition judge_c12_sk (k : skels) (c : c12_case) : nat :=
+  if in_domain (k12_def c) (k12_opts c) && traits_in_domain (k12_def c) && cells_in_domain (k12_def c)
+  then verdict (c12_spec_ok c) (c12_model_eq k c) else 3.
+Definition judge_c12 : c12_case -> nat := judge_c12_sk cur_skels.
 
 Definition c12_nontrivial (c : c12_case) : bool :=
   negb (Nat.eqb (ncols (k12_def c)) 0)
